@@ -218,7 +218,10 @@ def c06_run(tier, seed, repo):
         if len(out['samples']) < 5:
             out['samples'].append(dict(case, collectives_recorded=ncoll))
     for wf in (False, True):
-        errs = save_job(seed, wf)
+        try:
+            errs = save_job(seed, wf)
+        except Exception as e:
+            errs = ['setupSave on 3 ranks: %s: %s' % (type(e).__name__, e)]
         out['evaluated'] += 1
         if errs:
             out['failures'].append(dict(case=dict(kind='save', with_folder=wf), detail=errs[0]))
@@ -260,7 +263,10 @@ def c06_replay(case, repo):
         else:
             out['ok'] = 1
     else:
-        errs = save_job(0, case['with_folder'])
+        try:
+            errs = save_job(0, case['with_folder'])
+        except Exception as e:
+            errs = ['setupSave on 3 ranks: %s: %s' % (type(e).__name__, e)]
         out['evaluated'] = 1
         if errs:
             out['failures'].append(dict(case=case, detail=errs[0]))
